@@ -102,6 +102,25 @@ def _consts(node):
 MUT = {"append", "extend", "insert", "add", "update", "setdefault", "pop", "remove", "clear", "discard", "popitem", "sort", "reverse"}
 
 
+def access_path(e):
+    """('d', ('[0]', '.a', ...)) for a chain of attributes / constant subscripts on a name, else None"""
+    steps = []
+    while True:
+        if isinstance(e, ast.Attribute):
+            steps.append("." + e.attr)
+            e = e.value
+        elif isinstance(e, ast.Subscript):
+            try:
+                steps.append("[" + repr(ast.literal_eval(e.slice)) + "]")
+            except Exception:
+                return None
+            e = e.value
+        elif isinstance(e, ast.Name):
+            return e.id, tuple(reversed(steps))
+        else:
+            return None
+
+
 class Classifier:
     def __init__(self, tree, inferred_of_node):
         """inferred_of_node: ast node -> pyanalyze Value or None"""
@@ -164,6 +183,27 @@ class Classifier:
         V_, X = influence(fn, node)
         sub = [n for x in X for n in ast.walk(x)]
         inferred = self.iv(node)
+        # --- a composite whose narrowing was cleared in one branch (assignment to the path or a prefix of it
+        #     inside a compound statement) keeps the other branches' narrowing after the merge
+        ap = access_path(node)
+        if ap is not None and ap[1]:
+            for comp in ast.walk(fn):
+                if not isinstance(comp, (ast.If, ast.For, ast.While, ast.Try, ast.With, ast.Match)):
+                    continue
+                after = node.lineno > comp.end_lineno
+                # a loop that contains both the node and the assignment merges at its head (second pass)
+                in_loop = isinstance(comp, (ast.For, ast.While)) and comp.lineno < node.lineno <= comp.end_lineno
+                if isinstance(comp, (ast.If, ast.For, ast.While, ast.Try, ast.With, ast.Match)) and (after or in_loop):
+                    for st in ast.walk(comp):
+                        targets = []
+                        if isinstance(st, ast.Assign):
+                            targets = st.targets
+                        elif isinstance(st, (ast.AugAssign, ast.AnnAssign)):
+                            targets = [st.target]
+                        for t in targets:
+                            tp = access_path(t)
+                            if tp is not None and tp[0] == ap[0] and len(tp[1]) <= len(ap[1]) and ap[1][: len(tp[1])] == tp[1]:
+                                return "C01-composite-cleared-narrowing-merge"
         # --- tuple + tuple drops the receiver's element type
         for s in sub:
             if isinstance(s, ast.BinOp) and isinstance(s.op, ast.Add):
@@ -255,15 +295,13 @@ class Classifier:
         for s_ in sub:
             if isinstance(s_, ast.Call) and isinstance(s_.func, ast.Name) and s_.func.id == "sum" and self.only_literals(self.iv(s_)):
                 return "C01-sum-literal-typevar"
-        # --- constraints carried by the members of a union value are inverted jointly:
-        #     x = <IfExp / BoolOp whose branches are conditions on v>; ... if x: / if not x: ...
-        COND = (ast.Compare, ast.BoolOp)
-        for names, value, st in assignments(fn):
-            if isinstance(st, (ast.Assign, ast.AnnAssign, ast.NamedExpr)) and any(isinstance(n, (ast.IfExp, ast.BoolOp)) for n in ast.walk(value)):
-                conds = [n for n in ast.walk(value) if isinstance(n, COND) or (isinstance(n, ast.Call) and isinstance(n.func, ast.Name) and n.func.id == "isinstance")
-                         or (isinstance(n, ast.UnaryOp) and isinstance(n.op, ast.Not))]
-                if any(_names(c) & V_ for c in conds):
-                    for t in flat:
-                        if _names(t) & names and getattr(t, "lineno", 0) >= st.lineno:
-                            return "C01-union-value-constraints-inverted"
+        # --- break / continue inside a try statement with a finally clause: the finally body's assignments
+        #     are missing on the way out of the loop body
+        for t in ast.walk(fn):
+            if isinstance(t, ast.Try) and t.finalbody and node.lineno > t.lineno:
+                inner = [x for part in (t.body, t.handlers, t.orelse) for st in part for x in ast.walk(st)]
+                if any(isinstance(x, (ast.Break, ast.Continue)) for x in inner):
+                    stored = {n.id for st in t.finalbody for n in ast.walk(st) if isinstance(n, ast.Name) and isinstance(n.ctx, ast.Store)}
+                    if stored & V_:
+                        return "C01-finally-on-break-continue"
         return None
